@@ -180,10 +180,14 @@ def main(argv=None):
     if k in known:
       return k
     head, _, feats = k.rpartition(':')
+    got = set(feats.split('+'))
     for kk, rec_ in known.items():
       if rec_.get('match') == 'superset':
+        # the entry's own features are required; further features are tolerated only if
+        # the entry lists them under "may_also" (features that do not change the mechanism)
         h2, _, f2 = kk.rpartition(':')
-        if h2 == head and set(f2.split('+')) <= set(feats.split('+')):
+        need = set(f2.split('+'))
+        if h2 == head and need <= got <= need | set(rec_.get('may_also', [])):
           return kk
     return None
 
